@@ -274,6 +274,43 @@ def prof_enum(g, tier):
         if g.chance(0.3):
             reuse = (g.r.randint(1, min(w + 1, 8)), g.chance(0.3))
         out.append(enum_case(w, vals, g.chance(0.4), syntax=pick_syntax(g), reuse=reuse))
+    # cfg alternatives: two variants may share a number when their cfgs differ. Lists with at least 2^w
+    # entries that still leave a bit pattern uncovered (count-based reasoning about totality is wrong here),
+    # complete lists with an alternative, and same-cfg duplicates (must be rejected).
+    for _ in range(1500 if thorough else 260):
+        w = g.r.randint(1, 3)
+        full = list(range(1 << w))
+        g.r.shuffle(full)
+        shape = g.pick(["hole", "hole", "complete", "samecfg", "random"])
+        vals, cfgs = [str(v) for v in full], [None] * len(full)
+        if shape in ("hole", "samecfg") and len(full) >= 2:
+            i, j = g.r.sample(range(len(full)), 2)
+            vals[j] = vals[i]                       # number full[j] is now missing, full[i] appears twice
+            ca, cb = g.r.sample(["ca", "cb", "cd", "unix"], 2)   # quote-free atoms: the error classifier splits names at quotes
+            cfgs[i], cfgs[j] = (ca, cb) if shape == "hole" else (ca, ca)
+            if g.chance(0.3):
+                vals.append(vals[i]); cfgs.append(g.pick(["cc", "windows"]))
+        elif shape == "complete":
+            i = g.r.randrange(len(full))
+            pos = g.r.randint(0, len(full))
+            vals.insert(pos, vals[i if pos > i else i]); cfgs.insert(pos, "ca")
+            k = vals.index(vals[pos], 0 if vals.index(vals[pos]) != pos else pos + 1)
+            cfgs[k] = "cb"
+        else:
+            n = g.r.randint(1 << w, (1 << w) + 2)
+            vals = [str(g.r.randrange(1 << w)) if g.chance(0.8) else None for _k in range(n)]
+            cfgs = [g.pick([None, "ca", "cb"]) for _k in range(n)]
+        out.append(enum_case(w, vals, g.chance(0.15), syntax=pick_syntax(g), cfgs=cfgs,
+                             reuse=((g.r.randint(1, w + 1), False) if g.chance(0.2) else None)))
+    # signed fields: numbers may be negative; the analysis still reasons over 0 ..= 2^w - 1
+    for _ in range(1000 if thorough else 160):
+        w = g.r.randint(1, 3)
+        n = g.r.randint(1, (1 << w) + 1)
+        pool = list(range(-(1 << (w - 1)) - 1, (1 << w) + 1))
+        vals = [str(v) for v in (g.r.sample(pool, min(n, len(pool))) if g.chance(0.8) else [g.pick(pool) for _k in range(n)])]
+        if g.chance(0.2):
+            vals[g.r.randrange(len(vals))] = g.pick(["default", "catch_all", None])
+        out.append(enum_case(w, vals, g.chance(0.3), base="int", syntax=pick_syntax(g)))
     return out
 
 
@@ -890,6 +927,9 @@ def cases_for(prop, tier, seed):
         for i in range(400 * k):
             cs.append(case(common_fragment_adef(g), pick_syntax(g, (3, 3, 2, 2)), "api"))
         return CORPUS.get(prop, []) + cs
+    if prop == "C02":
+        # the generated getter / setter wrappers of a field must name the same codec, orders and range
+        return CORPUS.get(prop, []) + prof_layout(g, 150 * k) + [case(common_fragment_adef(g), pick_syntax(g, (3, 3, 2, 2)), "api") for _ in range(250 * k)]
     if prop == "C03":
         return CORPUS.get(prop, []) + prof_layout(g, 400 * k) + [case(common_fragment_adef(g), pick_syntax(g), "api") for _ in range(200 * k)]
     return _cases_for_base4(prop, tier, seed)
